@@ -33,6 +33,44 @@ fn comments_of(text: &str) -> Vec<String> {
     .collect()
 }
 
+/// Comments that stand directly before an `import` keyword (only comments in between), each with the
+/// module that import names: these are the comments "attached to an import line".
+fn comments_attached_to_imports(text: &str) -> Vec<(String, String)> {
+  let toks = synt::tokenize(text);
+  let mut out = vec![];
+  for (i, t) in toks.iter().enumerate() {
+    if !t.is_comment() {
+      continue;
+    }
+    let Some(k) = (i + 1..toks.len()).find(|j| !toks[*j].is_comment()) else { continue };
+    if !(toks[k].kind == TokKind::Keyword && toks[k].text == "import") {
+      continue;
+    }
+    // the module path: identifiers and dots after the next `from`
+    let Some(f) = (k + 1..toks.len()).find(|j| toks[*j].kind == TokKind::Keyword && toks[*j].text == "from") else { continue };
+    let mut name = String::new();
+    for j in f + 1..toks.len() {
+      let u = &toks[j];
+      if u.is_comment() {
+        continue;
+      }
+      let part_of_path = matches!(u.kind, TokKind::Upper | TokKind::Lower) || (u.kind == TokKind::Op && u.text == ".");
+      // an identifier directly after an identifier starts something else (cannot happen in a valid import)
+      if !part_of_path {
+        break;
+      }
+      name.push_str(&u.text);
+    }
+    let kind = match t.kind {
+      TokKind::LineComment => "L",
+      TokKind::BlockComment => "B",
+      _ => "D",
+    };
+    out.push((format!("{kind}:{}", synt::normalized_comment_text(t)), name));
+  }
+  out
+}
+
 fn tok_class(t: Option<&Tok>) -> String {
   match t {
     None => "EOF".to_string(),
@@ -113,6 +151,26 @@ fn check(text: &str, gap_desc: &str) -> Res {
         format!("comment-order:{gap_desc}"),
         format!("comment order changed: before {want:?}, after {got:?}; output {once:?}"),
       );
+    }
+    // a comment attached to an import line moves with that line: it still stands before an import of
+    // the same module, and the comments of one module keep their order
+    let before = comments_attached_to_imports(text);
+    if !before.is_empty() {
+      let after = comments_attached_to_imports(&once);
+      let modules: std::collections::BTreeSet<&String> = before.iter().map(|(_, m)| m).collect();
+      for m in modules {
+        let b: Vec<&String> = before.iter().filter(|(_, x)| x == m).map(|(c, _)| c).collect();
+        let a: Vec<&String> = after.iter().filter(|(_, x)| x == m).map(|(c, _)| c).collect();
+        // (the output may attach further comments to the import, e.g. the file's leading comment)
+        let mut it = a.iter();
+        let kept_in_order = b.iter().all(|c| it.any(|d| d == c));
+        if !kept_in_order {
+          return Res::Violation(
+            format!("import-comment-detached:{gap_desc}"),
+            format!("comments before the import of `{m}`: {b:?} in the input, {a:?} in the output; output {once:?}"),
+          );
+        }
+      }
     }
     let mut heap2 = Heap::new();
     let Some(m2) = parse(&once, &mut heap2) else {
